@@ -73,7 +73,9 @@ def _parse_tuple(ex, st, args, n, fmt_index=2):
             i += 2
             v = ex.fresh('parsed_obj', B64)
             c = Ctx(ex, {}, st)
-            st.assume(z3.Implies(ok == 1, z3.And(c.valid(v, 64), c.field(st, v, 'PyObject', 'ob_type') == tp)))
+            sub = R.ghost('is_subtype', B64, B64, z3.BoolSort())
+            t = c.field(st, v, 'PyObject', 'ob_type')
+            st.assume(z3.Implies(ok == 1, z3.And(c.valid(v, 64), z3.Or(t == tp, sub(t, tp)))))
             size = 8
         elif ch in 'Osz':
             dst = outs[k]
